@@ -48,11 +48,14 @@ var ItemPrims = []struct {
 }{
 	{"string", Prims[0]}, {"datetime", Prims[1]}, {"int", Prims[6]}, {"int32", Prims[7]}, {"int64", Prims[8]},
 	{"number", Prims[9]}, {"float", Prims[10]}, {"bool", Prims[12]},
+	{"datetime-layout", Prim{"datetime@time.RFC1123Z", "string", "date-time"}},
 }
 
 // PrimClass maps a primitive schema to its item class.
 func PrimClass(s *Schema) string {
 	switch {
+	case s.Type == "string" && s.Format == "date-time" && s.TimeFormat != "":
+		return "datetime-layout"
 	case s.Type == "string" && s.Format == "date-time":
 		return "datetime"
 	case s.Type == "string":
@@ -117,6 +120,9 @@ func matrixKinds() []kindDef {
 		ks = append(ks, kindDef{p.Name, func(d *Doc) *Schema { return p.Schema() }})
 	}
 	ks = append(ks,
+		kindDef{"datetime-layout", func(d *Doc) *Schema {
+			return &Schema{Type: "string", Format: "date-time", TimeFormat: "time.RFC1123Z"}
+		}},
 		kindDef{"any", func(d *Doc) *Schema { return &Schema{} }},
 	)
 	for _, it := range itemKinds() {
